@@ -4,7 +4,7 @@
    (documented spellings, what a type's name states, documented defaults), Spec/ConfigUnits.v (unit table).
    Model: Model/Config.v (try_as_spdc in the code's order with oracles), Model/Regex.v (regex engine). *)
 From Coq Require Import Reals String List Bool ZArith QArith.
-From SpdVerif Require Import Base.Rx Base.NumOps Spec.ConfigSpec Gen.ConfigTables Spec.ConfigUnits Model.ConfigTypes Model.Config
+From SpdVerif Require Import Base.Rx Base.CfgNumOps Spec.ConfigSpec Gen.ConfigTables Spec.ConfigUnits Model.ConfigTypes Model.Config
   Model.NumInst Model.Regex Model.Names Gen.ConfigConv
   Proofs.C16_names Proofs.C16_round Proofs.C16_roundtrip Proofs.C16_stable Proofs.C16_defaults Proofs.Regex.
 Import ListNotations.
